@@ -483,7 +483,7 @@ def run(chk):
                 "with the joint norm on either side of the threshold, late Parameter::init after a failed add; every history is executed by the "
                 "real library (ASan/UBSan build), by the Lean model (generated rules + Model/Optimizer.lean) and by the Lean "
                 "specification (Spec/Optimizers.lean). SGD/MomentumSGD histories on dyadic data are compared exactly as rationals, the "
-                "others in float32 within |a-b| <= 2^-18 max(|a|,|b|,1) (model) / 2^-11 max(|a|,|b|,1) (specification). Non-trivial = the call succeeded; distinct = "
+                "others in float32 within |a-b| <= 2^-18 S (model; 2^-11 S after the first last-bit difference of a history or on Eigen) / 2^-11 S (specification), S = largest magnitude the quantity has had in the history, both growing by 1 + updates/32. Non-trivial = the call succeeded; distinct = "
                 "distinct operation lines.") % (30 if quick else 200)
     ol.obligations_with_gen(chk, MODS, tr.generate, tr.OUT)
     T = Table()
@@ -536,8 +536,8 @@ def run(chk):
     chk.extra_cov["epoch_boundary_histories"] = len([h for h in hists if any(("u%d" % e) in l for l in h for e in EPOCH_BOUNDS)])
     chk.extra_cov["values_compared_exactly_as_rationals"] = R.model_cmp.exact_values
     chk.extra_cov["float32_representable_values_that_differed_from_the_rational_model_within_tolerance"] = R.model_cmp.exact_misses
-    chk.extra_cov["max_deviation_impl_vs_model_float32_over_max_abs_1"] = R.model_cmp.max_dev
-    chk.extra_cov["max_deviation_impl_vs_spec_float32_over_max_abs_1"] = R.spec_cmp.max_dev
+    chk.extra_cov["max_deviation_impl_vs_model_float32_relative_to_quantity_scale"] = R.model_cmp.max_dev
+    chk.extra_cov["max_deviation_impl_vs_spec_float32_relative_to_quantity_scale"] = R.spec_cmp.max_dev
     report_violations(chk, judged, quick)
     # 2. model != implementation although the implementation meets the specification
     if not chk.violations:
